@@ -367,7 +367,8 @@ fn xpub_table(r: &Report) {
                         r.violation(format!("xpub/differs-from-documented-rule/{}", rel), case(), format!("merge gives {:?}, documented rule gives {:?}", got, expected));
                     }
                     if let Err(e) = &res {
-                        if !format!("{:?}", e).contains("MergeConflict") {
+                        // "reported as a merge conflict": the variant itself, not its Debug rendering
+                        if !matches!(e, elements::pset::Error::MergeConflict(_)) {
                             r.violation(format!("xpub/wrong-error/{}", rel), case(), format!("{:?}", e));
                         }
                     }
